@@ -38,7 +38,11 @@ def sizing_inputs(ctx):
         qn = cname + '.__call__'
         from ..symex import default_policy as _dp
         ps = summarise(ctx, qn, policy=_dp)
+        from .sizers import is_empty_weights_path
         sized = [p for p in ps if p.outcome == 'return' and any(e.kind == 'loop' for e in p.events)]
+        if not sized:
+            # no statement-level sizing loop (vectorised / comprehension form): every returning path that is not the empty-weights shortcut
+            sized = [p for p in ps if p.outcome == 'return' and not is_empty_weights_path(p)]
         ok = bool(sized)
         seen = []
         for p in sized:
